@@ -47,6 +47,7 @@ type txWorld struct {
 	start   int
 	blocksProcessed map[bitcoin.Hash32]bool
 	safeDelayMS     int
+	judgeFrom       int // callbacks before this sequence number are ignored by checkC04
 }
 
 func (w *txWorld) tracef(f string, a ...interface{}) {
@@ -496,7 +497,7 @@ func (w *txWorld) checkC04(handlers int) {
 			for h := 0; h < handlers; h++ {
 				found := false
 				for _, ev := range evs {
-					if ev.Handler != h || ev.TxID != ti.id || (ev.Kind != "tx" && ev.Kind != "update") || ev.State.MerkleProof == nil {
+					if ev.Seq < w.judgeFrom || ev.Handler != h || ev.TxID != ti.id || (ev.Kind != "tx" && ev.Kind != "update") || ev.State.MerkleProof == nil {
 						continue
 					}
 					mp := ev.State.MerkleProof
